@@ -115,6 +115,18 @@ Theorem C03_result_tuples_forwarded :
   merge_tuple_ok = true /\ result_ctor_ok = true /\ restart_label_ok = true.
 Proof. vm_compute. repeat split; reflexivity. Qed.
 
+(* stored records never alias the caller's arrays: the translated model treats values as immutable, so the defensive
+   copies that make this true of the NumPy code are checked on the source text *)
+Definition model_assign (func target value : string) : bool :=
+  existsb (fun a => streq (a_file a) "model" && streq (a_func a) func && streq (a_target a) target && streq (a_value a) value) T_assigns.
+Definition defensive_copies_ok : bool :=
+  model_assign "Model.save_point" "self.rsave" "rvec.copy()" && model_assign "Model.change_point" "self.points[k, :]" "x.copy()" &&
+  model_assign "Model.change_point" "self.fval_v[k, :]" "rvec.copy()" && model_assign "Model.__init__" "self.xbase" "x0.copy()" &&
+  model_assign "Model.save_point" "self.jacsave" "self.model_jac.copy() if self.model_jac is not None else None" &&
+  existsb (fun a => streq (a_func a) "Model.save_point" && streq (a_name a) "xabs" && streq (a_value a) "x.copy() if x_in_abs_coords else self.as_absolute_coordinates(x)") T_assigns.
+Theorem C03_stored_records_are_copies : defensive_copies_ok = true.
+Proof. vm_compute. reflexivity. Qed.
+
 (* ---- model level (restated from C17 for this property) ---- *)
 Section C03.
 Context `{A : Arith}.
